@@ -119,6 +119,11 @@ func c13Race(c *wk.Ctx, r *wk.Rand, kind, descr string, ops []c13Op, isolated, r
 		}
 	}
 	c.Eval(wk.Hash64(kind, descr, fmt.Sprint(g), fmt.Sprint(orders[0])), true)
+	names := make([]string, 0, len(orders[0]))
+	for _, i := range orders[0] {
+		names = append(names, ops[i].name)
+	}
+	c.Sample(kind, map[string]any{"instance": clipStr(descr, 400), "goroutines": g, "calls_of_goroutine_0_in_order": names})
 }
 
 func c13TypeOps(r *wk.Rand, shape *gen.Shape, env *gen.Env, twin schema.Type) []c13Op {
